@@ -3,10 +3,10 @@ flips its switch here.  VERIF_DEVS="Dev_X=FALSE,Dev_Y=TRUE" overrides for experi
 import os
 
 DEVS = {
-    "Dev_PruneWithoutReap": "TRUE",          # D4
+    "Dev_PruneWithoutReap": "FALSE",         # D4: repaired by 9979cba
     "Dev_AfterSpawnKillDetached": "TRUE",    # D3
     "Dev_BuiltinIgnoreList": "TRUE",         # D11
-    "Dev_AddEmptyNameReturns": "TRUE",       # D9
+    "Dev_AddEmptyNameReturns": "FALSE",      # D9: repaired by e8e067a
 }
 
 
